@@ -2031,6 +2031,20 @@ func verifCompact(s string) []byte {
 }
 
 // clone returns a deep copy of the storage contents (as the disk would be found after a crash now).
+// padFilesOnDisk: how many files of the storage lie in a `.pad` directory (the harness names every padding file
+// `.pad/<length>`); a padding file is never opened, created or written.
+func (s *verifStorage) padFilesOnDisk() int {
+	s.mu.Lock()
+	defer s.mu.Unlock()
+	n := 0
+	for name := range s.files {
+		if strings.Contains(name, ".pad/") {
+			n++
+		}
+	}
+	return n
+}
+
 func (s *verifStorage) clone() *verifStorage {
 	s.mu.Lock()
 	defer s.mu.Unlock()
@@ -2100,6 +2114,10 @@ func (w *VerifWorld) crashCheck(m map[string]string) string {
 	st := t2.Stats() // barrier
 	_ = st
 	tt := t2.torrent
+	if n := sto.padFilesOnDisk(); n > 0 {
+		// the restarted client has created (or opened) a BEP 47 padding file in its storage
+		return fmt.Sprintf("padondisk:%d", n)
+	}
 	if tt.info == nil {
 		return "ok" // metadata not known: nothing can be claimed
 	}
